@@ -6,6 +6,7 @@ package main
 
 import (
 	"fmt"
+	"go/constant"
 	"go/token"
 	"sort"
 	"strings"
@@ -93,9 +94,8 @@ func nonEmptyCmp(c *Canon, cond ssa.Value) (x string, nonEmpty bool, ok bool) {
 	return "", false, false
 }
 
-func ruleHybridFlagTables(r *Run, k *hybridKind) {
+func ruleHybridFlagTables(r *Run, k *hybridKind, rule string) {
 	w := r.W
-	rule := "C06.FLAGS"
 	r.Doc(rule, "a sub-index is written, rolled back or cleaned for the wrong documents: a document keeps answering in a modality after Remove, a failed Add stays visible, or a document without some modality cannot be added / removed")
 	type modality struct {
 		name, idx, flag string
@@ -171,28 +171,51 @@ func ruleHybridFlagTables(r *Run, k *hybridKind) {
 				r.Check(len(bad) == 0, rule, "flags:add:when:"+m.name, w.InstrPos(add)+" "+name,
 					fmt.Sprintf("the %s sub-index receives the document exactly when it is configured and the document has a %s part (%d states over the success paths)", m.name, m.name, states),
 					"the "+m.name+" sub-index Add does not run exactly for `configured ∧ part present`: "+truncList(bad, 3))
-				// the flag is set on exactly the success paths that ran the sub-add
-				var flagStore *ssa.Store
+				// the flag ends up true on exactly the success paths that ran the sub-add: the value stored into it — a
+				// constant, or a variable resolved along the path — is compared per path (no store: the zero value, false)
+				var flagStores []*ssa.Store
 				allInstrs(fn, func(in ssa.Instruction) {
 					if st, ok := in.(*ssa.Store); ok {
 						if fa, ok := st.Addr.(*ssa.FieldAddr); ok && fieldName(fa.X.Type(), fa.Field) == m.flag {
-							if cst, ok := st.Val.(*ssa.Const); ok && cst.Value != nil && cst.Value.ExactString() == "true" {
-								flagStore = st
-							}
+							flagStores = append(flagStores, st)
 						}
 					}
 				})
-				if flagStore == nil {
-					r.Bad(rule, "flags:add:flag:"+m.name, w.InstrPos(add)+" "+name, "the add routine never records "+m.flag+" = true: Remove will not clean the "+m.name+" sub-index")
+				if len(flagStores) == 0 {
+					r.Bad(rule, "flags:add:flag:"+m.name, w.InstrPos(add)+" "+name, "the add routine never records "+m.flag+": Remove will not clean the "+m.name+" sub-index")
 					continue
 				}
 				mismatch := ""
 				for _, row := range rows {
-					if row.P.Has(add) != row.P.Has(flagStore) {
-						mismatch = fmt.Sprintf("a success path runs the sub-add: %v, records the flag: %v", row.P.Has(add), row.P.Has(flagStore))
+					flag, known := false, true
+					for _, in := range row.P.Instrs() {
+						st, isSt := in.(*ssa.Store)
+						if !isSt {
+							continue
+						}
+						mine := false
+						for _, fs := range flagStores {
+							if fs == st {
+								mine = true
+							}
+						}
+						if !mine {
+							continue
+						}
+						v := resolveOnPath(row.P, forwardLocalLoad(st.Val))
+						if cst, isC := v.(*ssa.Const); isC && cst.Value != nil && cst.Value.Kind() == constant.Bool {
+							flag = constant.BoolVal(cst.Value)
+						} else {
+							known = false
+						}
+					}
+					if !known {
+						mismatch = "the value recorded in " + m.flag + " on a success path is not determined by the path"
+					} else if flag != row.P.Has(add) {
+						mismatch = fmt.Sprintf("a success path runs the sub-add: %v, leaves %s = %v", row.P.Has(add), m.flag, flag)
 					}
 				}
-				r.Check(mismatch == "", rule, "flags:add:flag:"+m.name, w.InstrPos(flagStore)+" "+name, m.flag+" is recorded on exactly the success paths that added to the "+m.name+" sub-index", mismatch)
+				r.Check(mismatch == "", rule, "flags:add:flag:"+m.name, w.InstrPos(flagStores[0])+" "+name, m.flag+" is true after exactly the success paths that added to the "+m.name+" sub-index", mismatch)
 			}
 		}
 	} else {
@@ -300,6 +323,19 @@ func ruleHybridFlagTables(r *Run, k *hybridKind) {
 				}
 			}
 			if m == nil {
+				continue
+			}
+			decidedHere := false
+			for _, row := range rows {
+				if _, has := row.Atoms["HAS:"+m.name]; has {
+					decidedHere = true
+				}
+				if row.Unknown == 0 && row.P.Has(rm) {
+					decidedHere = true // unconditional compensation
+				}
+			}
+			if !decidedHere {
+				r.Note(rule, "flags:rollback:"+w.Name(g)+":"+m.name, w.InstrPos(rm)+" "+w.Name(g), "the rollback is keyed on something else than the document's "+m.flag+" flag (a parameter, a local): when it runs is not decided here")
 				continue
 			}
 			bad, _ := tableCheck([]string{"HAS:" + m.name}, rows, func(row pathRow) string {
